@@ -26,6 +26,12 @@ Proof.
   induction p as [|p IH]; intros [|x l] [|q] e X; simpl in X; try discriminate; try assumption; simpl; eauto.
 Qed.
 
+Lemma nth_clear_part c s p q e :
+  nth_error (clear_part c s p) q = Some (Some e) -> nth_error (s_parts s) q = Some (Some e).
+Proof.
+  destruct (clear_part_cases c s p) as [E|E]; rewrite E; [apply nth_set_none|auto].
+Qed.
+
 Lemma own_step_frame c s l s' o :
   NotStartedInv s -> own_label l = true -> sstep c s l = Some (s', o) ->
   s_now s' = s_now s
@@ -38,7 +44,8 @@ Proof.
   all: try (cases_in H; try some_inv H; unfold calc, at_top in *; simpl in *;
             repeat split; intros; try congruence; try assumption; try (left; assumption);
             try (exfalso; eapply nth_repeat_none; eassumption);
-            try (eapply nth_resize_some; eassumption); try (eapply nth_set_none; eassumption); fail).
+            try (eapply nth_resize_some; eassumption); try (eapply nth_set_none; eassumption);
+            try (eapply nth_clear_part; eassumption); fail).
   - (* Start *)
     assert (X : forall p t, s_loop s = SCalling p t -> s_phase s = SStarted \/ s_phase s = SStopped).
     { intros p t L. destruct (s_phase s) eqn:P; auto; exfalso; unfold NotStartedInv in NS; rewrite L in NS;
